@@ -1,14 +1,16 @@
 ------------------------------- MODULE Buffer -------------------------------
 (***************************************************************************)
 (* Implementation-shaped, timed specification of aiuti.asyncio.            *)
-(* BufferAsyncCalls (buffer_until_timeout) on its own loop, for immediate  *)
-(* arguments (plain calls), after the repairs 51aad17 / 12daa35:           *)
-(*   _put, _waiter/_process_queue, _run_func, wait().                      *)
+(* BufferAsyncCalls (buffer_until_timeout) on its own loop, after the      *)
+(* repairs 51aad17 / 12daa35: _put, _waiter/_process_queue (with its       *)
+(* loaders: every submission is a producer that _load_inputs drains -      *)
+(* immediately for a plain call, after a delay for an awaitable, yielding  *)
+(* one element, none (empty iterable) or failing), _run_func, wait().      *)
 (* `now` advances only when nothing is runnable on the loop (Tick).        *)
 (* The contract monitor BufferContract is composed in (variable mon): the  *)
 (* clauses of C03, C07 and C08 - including the timing clauses C08_Quiet /  *)
 (* C08_Together - are invariants of this model for every arrival pattern,  *)
-(* wait() placement and failure set within the constants.                  *)
+(* producer kind, wait() placement and failure set within the constants.   *)
 (*                                                                         *)
 (* ClearInputs = FALSE models the code before repair 12daa35 (the set of   *)
 (* collected inputs survives a successful call) together with Foreign =    *)
@@ -17,7 +19,10 @@
 (***************************************************************************)
 EXTENDS BufferContract, SequencesExt
 
-CONSTANTS Elems,        \* 1..N : the arguments, submitted in this order
+CONSTANTS Elems,        \* 1..N : the submissions (= their one argument), made in this order
+          KindOf,       \* x -> "call" (plain call) | "await" (awaitable, result after LoadOf[x] ticks) |
+                        \*      "afail" (awaitable that fails after LoadOf[x] ticks) | "empty" (map of an empty list)
+          LoadOf,       \* x -> ticks the producer takes once it is being drained
           TAU, Dur,     \* timeout and function duration in ticks
           FailSet,      \* invocation numbers that raise
           MaxTime,      \* submissions happen at ticks 0..MaxTime
@@ -25,11 +30,12 @@ CONSTANTS Elems,        \* 1..N : the arguments, submitted in this order
           CancelOf,
           Foreign, ClearInputs
 
-VARIABLES now, nsub, q, unfinished, flag, ppc, inputs, getting, func, wpc, mon, fclear
+VARIABLES now, nsub, q, unfinished, flag, ppc, inputs, gens, getting, func, wpc, mon, fclear
 
-vars == <<now, nsub, q, unfinished, flag, ppc, inputs, getting, func, wpc, mon, fclear>>
+vars == <<now, nsub, q, unfinished, flag, ppc, inputs, gens, getting, func, wpc, mon, fclear>>
 
 Emit(m, e) == MStep(m, e @@ [t |-> now, n |-> 0], 0)
+NoGens == [x \in {} |-> 0]
 
 Init ==
     /\ now = 0 /\ nsub = 0
@@ -37,78 +43,117 @@ Init ==
     /\ flag = TRUE
     /\ ppc = "first"
     /\ inputs = {}
-    /\ getting = [st |-> "none", deadline |-> 0]
+    /\ gens = NoGens                     \* producers being drained -> time they finish
+    /\ getting = [st |-> "none", deadline |-> 0, item |-> 0]
     /\ func = [n |-> 0, until |-> 0, S |-> {}]
     /\ wpc = [w \in Waits |-> "new"]
     /\ fclear = 0
     /\ mon = MStep(MInit, [e |-> "Config", tau |-> TAU, t |-> 0, n |-> 0], 0)
 
 \* ---------------------------------------------------------------- submissions
-Submit ==        \* buffer(x) from the loop's own thread: event.clear(); put on the queue
+FElem == Cardinality(Elems) + 1          \* the foreign thread's plain call
+Kind(x) == IF x = FElem THEN "call" ELSE KindOf[x]
+Load(x) == IF x = FElem THEN 0 ELSE LoadOf[x]
+Imm(x) == Kind(x) \in {"call", "empty"}
+KindName(x) == CASE Kind(x) = "call" -> "call" [] Kind(x) = "empty" -> "map_list" [] OTHER -> "await"
+
+Submit ==        \* buffer(x) / buffer.await_(aw) / buffer.map([]) from the loop's own thread: event.clear(); put on the queue
     /\ nsub < Cardinality(Elems) /\ now <= MaxTime /\ ppc # "check"
-    /\ LET x == nsub + 1 IN
+    /\ LET x == nsub + 1
+           m1 == Emit(mon, [e |-> "Submit", id |-> x, kind |-> KindName(x), thr |-> "L1", imm |-> Imm(x)]) IN
        /\ nsub' = x
        /\ flag' = FALSE
        /\ q' = Append(q, x)
        /\ unfinished' = unfinished + 1
-       /\ mon' = Emit(Emit(Emit(mon, [e |-> "Submit", id |-> x, kind |-> "call", thr |-> "L1", imm |-> TRUE]),
-                           [e |-> "Produced", id |-> x, x |-> x]), [e |-> "ProducerDone", id |-> x])
-    /\ UNCHANGED <<now, ppc, inputs, getting, func, wpc, fclear>>
+       /\ mon' = CASE Kind(x) = "call" -> Emit(Emit(m1, [e |-> "Produced", id |-> x, x |-> x]), [e |-> "ProducerDone", id |-> x])
+                   [] Kind(x) = "empty" -> Emit(m1, [e |-> "ProducerDone", id |-> x])
+                   [] OTHER -> m1
+    /\ UNCHANGED <<now, ppc, inputs, gens, getting, func, wpc, fclear>>
 
-FElem == Cardinality(Elems) + 1
 ForeignClear ==  \* another thread is inside _put(): its event.clear() lands at an arbitrary point ...
     /\ Foreign /\ fclear = 0
     /\ fclear' = 1
     /\ flag' = FALSE
     /\ mon' = Emit(Emit(Emit(mon, [e |-> "Submit", id |-> FElem, kind |-> "call", thr |-> "F1", imm |-> TRUE]),
                         [e |-> "Produced", id |-> FElem, x |-> FElem]), [e |-> "ProducerDone", id |-> FElem])
-    /\ UNCHANGED <<now, nsub, q, unfinished, ppc, inputs, getting, func, wpc>>
+    /\ UNCHANGED <<now, nsub, q, unfinished, ppc, inputs, gens, getting, func, wpc>>
 
 ForeignPut ==    \* ... and its call_soon_threadsafe(q.put_nowait) runs on the loop a little later
     /\ fclear = 1 /\ ppc # "check"
     /\ fclear' = 2
     /\ q' = Append(q, FElem)
     /\ unfinished' = unfinished + 1
-    /\ UNCHANGED <<now, nsub, flag, ppc, inputs, getting, func, wpc, mon>>
+    /\ UNCHANGED <<now, nsub, flag, ppc, inputs, gens, getting, func, wpc, mon>>
 
 \* ---------------------------------------------------------------- _process_queue
-PFirst ==        \* first q.get(): block until an item appears; event.clear(); task_done()
+Start(xs) == [x \in xs |-> now + Load(x)]      \* the producers start running when _load_inputs iterates them
+Arm == [st |-> "pending", deadline |-> now + TAU, item |-> 0]
+
+PFirst ==        \* first q.get(): block until an item appears; event.clear(); task_done(); its loader is kept for the gather
     /\ ppc = "first" /\ q # <<>>
-    /\ inputs' = {Head(q)}
+    /\ gens' = [x \in {Head(q)} |-> 0]         \* (not started yet: see PDrain)
     /\ q' = Tail(q) /\ unfinished' = unfinished - 1
     /\ flag' = FALSE
     /\ ppc' = "drain"
-    /\ UNCHANGED <<now, nsub, getting, func, wpc, mon, fclear>>
+    /\ UNCHANGED <<now, nsub, inputs, getting, func, wpc, mon, fclear>>
 
-PDrain ==        \* take everything queued, arm the quiet timer (wait_for(q.get(), timeout)), load the inputs
+PDrain ==        \* take everything queued (task_done each), arm the quiet timer (wait_for(q.get(), timeout)), gather the loaders
     /\ ppc = "drain"
-    /\ inputs' = inputs \cup SeqToSet(q)
+    /\ gens' = Start(DOMAIN gens \cup SeqToSet(q))
     /\ unfinished' = unfinished - Len(q)
     /\ q' = <<>>
-    /\ getting' = [st |-> "pending", deadline |-> now + TAU]
-    /\ ppc' = "armed"
-    /\ UNCHANGED <<now, nsub, flag, func, wpc, mon, fclear>>
+    /\ getting' = Arm                  \* (armed *before* the known producers are drained)
+    /\ ppc' = "loading"
+    /\ UNCHANGED <<now, nsub, flag, inputs, func, wpc, mon, fclear>>
 
-PGot ==          \* the armed q.get() delivers a new item before the timeout
-    /\ ppc = "armed" /\ getting.st = "pending" /\ q # <<>>
-    /\ inputs' = inputs \cup {Head(q)}
-    /\ q' = Tail(q) /\ unfinished' = unfinished - 1
-    /\ getting' = [getting EXCEPT !.st = "none"]
+LoaderDone(x) == \* one producer is exhausted (or fails: logged and ignored): its element, if any, joins the inputs
+    /\ ppc \in {"loading", "load1"} /\ x \in DOMAIN gens /\ gens[x] <= now
+    /\ gens' = [y \in DOMAIN gens \ {x} |-> gens[y]]
+    /\ inputs' = IF Kind(x) \in {"call", "await"} THEN inputs \cup {x} ELSE inputs
+    /\ mon' = CASE Kind(x) = "await" -> Emit(Emit(mon, [e |-> "Produced", id |-> x, x |-> x]), [e |-> "ProducerDone", id |-> x])
+                [] Kind(x) = "afail" -> Emit(mon, [e |-> "ProducerFailed", id |-> x])
+                [] OTHER -> mon
+    /\ UNCHANGED <<now, nsub, q, unfinished, flag, ppc, getting, func, wpc, fclear>>
+
+PLoaded ==       \* gather(*input_gens) is done: now wait for the armed q.get()
+    /\ ppc = "loading" /\ DOMAIN gens = {}
+    /\ ppc' = "armed"
+    /\ UNCHANGED <<now, nsub, q, unfinished, flag, inputs, gens, getting, func, wpc, mon, fclear>>
+
+GetTakes ==      \* the armed q.get() obtains a new item before the timeout (also while the loaders are still running)
+    /\ getting.st = "pending" /\ q # <<>> /\ ppc \in {"loading", "armed"}
+    /\ getting' = [getting EXCEPT !.st = "got", !.item = Head(q)]
+    /\ q' = Tail(q)
+    /\ UNCHANGED <<now, nsub, unfinished, flag, ppc, inputs, gens, func, wpc, mon, fclear>>
+
+GetTimeout ==    \* wait_for gives up (noticed by _process_queue only once it awaits the task)
+    /\ getting.st = "pending" /\ getting.deadline <= now /\ ppc \in {"loading", "armed"}
+    \* (at an exact tie between the timer and an arrival either may win: the queue need not be empty)
+    /\ getting' = [getting EXCEPT !.st = "timeout"]
+    /\ UNCHANGED <<now, nsub, q, unfinished, flag, ppc, inputs, gens, func, wpc, mon, fclear>>
+
+PGot ==          \* await _load_inputs(await self._getting): drain the new item's producer on its own
+    /\ ppc = "armed" /\ getting.st = "got"
+    /\ gens' = Start({getting.item})
+    /\ getting' = [getting EXCEPT !.st = "none", !.item = 0]
+    /\ ppc' = "load1"
+    /\ UNCHANGED <<now, nsub, q, unfinished, flag, inputs, func, wpc, mon, fclear>>
+
+PLoad1Done ==    \* ... then q.task_done() and round again
+    /\ ppc = "load1" /\ DOMAIN gens = {}
+    /\ unfinished' = unfinished - 1
     /\ ppc' = "drain"
-    /\ UNCHANGED <<now, nsub, flag, func, wpc, mon, fclear>>
+    /\ UNCHANGED <<now, nsub, q, flag, inputs, gens, getting, func, wpc, mon, fclear>>
 
 StartFunc ==     \* timeout or cancelled by wait(): _run_func(inputs)
-    /\ ppc = "armed"
-    \* (at an exact tie between the timer and an arrival either may win: the queue need not be empty)
-    /\ \/ getting.st = "pending" /\ getting.deadline <= now
-       \/ getting.st = "cancelled"
+    /\ ppc = "armed" /\ getting.st \in {"timeout", "cancelled"}
     /\ getting' = [getting EXCEPT !.st = "none"]
     /\ IF inputs = {}
        THEN /\ flag' = TRUE /\ ppc' = "check" /\ UNCHANGED <<func, mon>>
        ELSE /\ func' = [n |-> func.n + 1, until |-> now + Dur, S |-> inputs]
             /\ mon' = Emit(mon, [e |-> "FuncStart", n |-> func.n + 1, S |-> SetToSeq(inputs)])
             /\ ppc' = "run" /\ UNCHANGED flag
-    /\ UNCHANGED <<now, nsub, q, unfinished, inputs, wpc, fclear>>
+    /\ UNCHANGED <<now, nsub, q, unfinished, inputs, gens, wpc, fclear>>
 
 EndFunc ==       \* the wrapped function returns or raises
     /\ ppc = "run" /\ func.until <= now
@@ -119,59 +164,64 @@ EndFunc ==       \* the wrapped function returns or raises
             /\ flag' = TRUE
             /\ inputs' = IF ClearInputs THEN {} ELSE inputs
     /\ ppc' = "check"
-    /\ UNCHANGED <<now, nsub, q, unfinished, getting, func, wpc, fclear>>
+    /\ UNCHANGED <<now, nsub, q, unfinished, gens, getting, func, wpc, fclear>>
 
 PCheck ==        \* while not self.event.is_set(): ...   /  return and start over
     /\ ppc = "check"
     /\ ppc' = IF flag THEN "first" ELSE "drain"
     /\ inputs' = IF flag THEN {} ELSE inputs      \* a new _process_queue() starts from an empty set
-    /\ UNCHANGED <<now, nsub, q, unfinished, flag, getting, func, wpc, mon, fclear>>
+    /\ UNCHANGED <<now, nsub, q, unfinished, flag, gens, getting, func, wpc, mon, fclear>>
 
 \* ---------------------------------------------------------------- wait()
 WaitCall(w) ==
     /\ wpc[w] = "new" /\ now <= MaxTime + TAU /\ ppc # "check"
     /\ wpc' = [wpc EXCEPT ![w] = "join"]
     /\ mon' = Emit(mon, [e |-> "WaitCall", w |-> w, cancel |-> CancelOf[w], thr |-> "L1"])
-    /\ UNCHANGED <<now, nsub, q, unfinished, flag, ppc, inputs, getting, func, fclear>>
+    /\ UNCHANGED <<now, nsub, q, unfinished, flag, ppc, inputs, gens, getting, func, fclear>>
 
-WaitJoin(w) ==   \* await q.join(): every queued item was taken
+WaitJoin(w) ==   \* await q.join(): every queued item was taken (and marked done)
     /\ wpc[w] = "join" /\ unfinished = 0 /\ q = <<>>
     /\ wpc' = [wpc EXCEPT ![w] = "kick"]
-    /\ UNCHANGED <<now, nsub, q, unfinished, flag, ppc, inputs, getting, func, mon, fclear>>
+    /\ UNCHANGED <<now, nsub, q, unfinished, flag, ppc, inputs, gens, getting, func, mon, fclear>>
 
 WaitKick(w) ==   \* if cancel and the quiet timer is pending: cancel it (flush now)
     /\ wpc[w] = "kick" /\ ppc # "drain"          \* the sleep(0) lets _process_queue pull what is queued
     /\ wpc' = [wpc EXCEPT ![w] = "flag"]
-    /\ getting' = IF CancelOf[w] /\ getting.st = "pending" /\ ppc = "armed"
+    /\ getting' = IF CancelOf[w] /\ getting.st = "pending" /\ ppc \in {"armed", "loading"}
                   THEN [getting EXCEPT !.st = "cancelled"] ELSE getting
-    /\ UNCHANGED <<now, nsub, q, unfinished, flag, ppc, inputs, func, mon, fclear>>
+    /\ UNCHANGED <<now, nsub, q, unfinished, flag, ppc, inputs, gens, func, mon, fclear>>
 
 WaitRet(w) ==    \* await self.event.wait()
     /\ wpc[w] = "flag" /\ flag /\ ppc \notin {"check"}
     /\ wpc' = [wpc EXCEPT ![w] = "done"]
     /\ mon' = Emit(mon, [e |-> "WaitRet", w |-> w])
-    /\ UNCHANGED <<now, nsub, q, unfinished, flag, ppc, inputs, getting, func, fclear>>
+    /\ UNCHANGED <<now, nsub, q, unfinished, flag, ppc, inputs, gens, getting, func, fclear>>
 
 \* ---------------------------------------------------------------- time
 Urgent == \/ ppc = "first" /\ q # <<>>
           \/ fclear = 1
           \/ ppc \in {"drain", "check"}
-          \/ ppc = "armed" /\ (q # <<>> \/ getting.st = "cancelled" \/ getting.deadline <= now)
+          \/ ppc \in {"loading", "load1"} /\ (DOMAIN gens = {} \/ \E x \in DOMAIN gens : gens[x] <= now)
+          \/ ppc \in {"loading", "armed"} /\ getting.st = "pending" /\ (q # <<>> \/ getting.deadline <= now)
+          \/ ppc = "armed" /\ getting.st \in {"got", "timeout", "cancelled"}
           \/ ppc = "run" /\ func.until <= now
           \/ \E w \in Waits : \/ wpc[w] = "join" /\ unfinished = 0 /\ q = <<>>
                               \/ wpc[w] = "kick" /\ ppc # "drain"
                               \/ wpc[w] = "flag" /\ flag /\ ppc # "check"
-Horizon == MaxTime + (Cardinality(FailSet) + 3) * (TAU + Dur + 1)
+MaxLoad == CHOOSE m \in {LoadOf[x] : x \in Elems} \cup {0} : \A x \in Elems : LoadOf[x] <= m
+Horizon == MaxTime + (Cardinality(FailSet) + 3) * (TAU + Dur + MaxLoad + 1)
 Tick == /\ ~Urgent /\ now < Horizon
         /\ (now < MaxTime \/ (nsub = Cardinality(Elems) /\ (~Foreign \/ fclear = 2)))
         /\ now' = now + 1
-        /\ UNCHANGED <<nsub, q, unfinished, flag, ppc, inputs, getting, func, wpc, mon, fclear>>
+        /\ UNCHANGED <<nsub, q, unfinished, flag, ppc, inputs, gens, getting, func, wpc, mon, fclear>>
 
 Settled == /\ nsub = Cardinality(Elems) /\ q = <<>> /\ ppc = "first" /\ flag /\ fclear # 1
            /\ \A w \in Waits : wpc[w] \in {"new", "done"}
 Finish == Settled /\ now = Horizon /\ UNCHANGED vars
 
-Next == \/ Submit \/ ForeignClear \/ ForeignPut \/ PFirst \/ PDrain \/ PGot \/ StartFunc \/ EndFunc \/ PCheck
+Next == \/ Submit \/ ForeignClear \/ ForeignPut \/ PFirst \/ PDrain \/ PLoaded \/ GetTakes \/ GetTimeout \/ PGot
+        \/ PLoad1Done \/ StartFunc \/ EndFunc \/ PCheck
+        \/ \E x \in Elems \cup {FElem} : LoaderDone(x)
         \/ \E w \in Waits : WaitCall(w) \/ WaitJoin(w) \/ WaitKick(w) \/ WaitRet(w)
         \/ Tick \/ Finish
 Spec == Init /\ [][Next]_vars
@@ -180,7 +230,7 @@ Spec == Init /\ [][Next]_vars
 Inv_C03 == mon.bad["C03"] = Ok
 Inv_C07 == mon.bad["C07"] = Ok
 Inv_C08 == mon.bad["C08"] = Ok
-\* everything submitted has been delivered in a successful call by the horizon (C03_AllDelivered, C07_Returns)
+\* everything produced has been delivered in a successful call by the horizon (C03_AllDelivered, C07_Returns)
 DeliveredAtHorizon == (now = Horizon /\ ~Urgent) =>
                         /\ (DOMAIN mon.prod) \subseteq mon.okset
                         /\ nsub = Cardinality(Elems) => Settled \/ \E w \in Waits : wpc[w] = "new"
@@ -189,4 +239,5 @@ NoWaitStuck == (now = Horizon /\ ~Urgent) => \A w \in Waits : wpc[w] \in {"new",
 NeverTwoCalls == func.n < 2
 NeverFlush == \A w \in Waits : ~(wpc[w] = "flag" /\ getting.st = "cancelled")
 NeverBurst == \A i \in DOMAIN mon.sub : TRUE /\ Cardinality(func.S) < 2
+NeverSlowLoad == ~(ppc = "loading" /\ getting.st \in {"got", "timeout"})
 =============================================================================
